@@ -580,8 +580,8 @@ class TableReport(ReportBase):
         if isinstance(value, datetime):
             # Use report's timeFormat, falling back to project's timeformat
             timeformat = self.a("timeFormat")
-            # Check if it's the default - if so, try project's timeformat
-            if timeformat == "%Y-%m-%d":
+            # Not set in the report (an explicit format equal to the default is still the report's choice)
+            if not self.report.provided("timeFormat"):
                 project_timeformat = self.project.attributes.get("timeformat")
                 if project_timeformat:
                     timeformat = project_timeformat
